@@ -212,8 +212,11 @@ class C15(object):
                 "strategy": rnd.choice(["random", "random", "pct", "rr", "rtc"]), "p_inv": rnd.choice([1, 2, 4, 16, 64]),
                 "quantum": rnd.choice([1, 2, 5]), "pct_d": rnd.choice([1, 2, 3]), "sseed": rnd.getrandbits(48),
                 "native_big": ({"n": rnd.choice([46341, 50000, 70001]), "edges": rnd.choice([30000, 90000]), "seed": rnd.getrandbits(32),
-                                "dtype": rnd.choice(["int32", "int32", "int64"])}
-                               if rnd.random() < (0.0015 if ctx.tier == "quick" else 0.0004) else None),
+                                "dtype": rnd.choice(["int32", "int32", "int64"]),
+                                # "chain": one long string of peaks whose numbers and pairs are stored in shuffled order (labelling
+                                # it takes hundreds of sweeps)
+                                "shape": rnd.choice(["local", "chain", "chain"]), "chain_n": rnd.choice([300, 700, 1500, 3000])}
+                               if rnd.random() < (0.004 if ctx.tier == "quick" else 0.0008) else None),
                 "native": rnd.random() < 0.04, "layout": layout, "shape2": shape2, "big_clean": big_clean,
                 "idx_dtype": rnd.choice(["int64", "int64", "int64", "int32", "uint32", "uint16", "uint64"]),
                 "merge_calls": [rnd.random() < 0.5 for _ in range(rnd.choice([0, 0, 1, 2]))],
@@ -546,8 +549,16 @@ class C15(object):
             nb = desc["native_big"]
             gbig = np.random.default_rng(nb["seed"])
             N = nb["n"]
-            src = gbig.integers(0, N, nb["edges"])
-            dst = np.minimum(N - 1, src + gbig.integers(0, 4, nb["edges"]))
+            if nb.get("shape") == "chain":
+                N = nb["chain_n"]
+                perm_ = gbig.permutation(N)
+                ordr_ = gbig.permutation(N - 1)
+                src, dst = perm_[:-1][ordr_], perm_[1:][ordr_]
+                flip_ = gbig.random(N - 1) < 0.5
+                src, dst = np.where(flip_, dst, src), np.where(flip_, src, dst)
+            else:
+                src = gbig.integers(0, N, nb["edges"])
+                dst = np.minimum(N - 1, src + gbig.integers(0, 4, nb["edges"]))
             bi, bj = src.astype(nb["dtype"]), dst.astype(nb["dtype"])
 
             def big():
@@ -593,6 +604,7 @@ class C15(object):
         meas = {"steps": sched.steps, "switches": sched.switches, "sweeps": sweeps, "threads_T": {desc["T"]: 1},
                 "strategy": {desc["strategy"]: 1}, "graph_kind": {desc["kind"]: 1}, "chunking": {desc["chunking"]: 1},
                 "permuted_prange_loops": self.state["permuted"], "native_conformance_runs": native_checked,
+                "native_shuffled_chain_runs": 1 if (desc.get("native_big") or {}).get("shape") == "chain" else 0,
                 "max_sweeps": {str(sweeps): 1}}
         return {"digest": enginea.sha(sched.digest(), res.get("labels"), sweeps), "nontrivial": bool(real_edges and desc["T"] >= 2),
                 "sig": "%s/%s/%s/%s" % (enginea.sha(n, E), desc["T"], desc["chunking"], sched.sched_sig()),
